@@ -6,7 +6,8 @@ crashcreate step is refined into every zero-fill offset of the first non-durable
 import json
 import vlib
 
-ACTIONS = ['CreateList', 'Delete', 'SegmentRoll', 'CompactBegin', 'CompactEnd', 'Reopen', 'CrashCreate']
+ACTIONS = ['CreateList', 'Delete', 'SegmentRoll', 'DeleteRoll', 'CrashRoll', 'CompactBegin', 'CompactEnd', 'Reopen', 'CrashCreate']
+ROLLS = ('roll', 'deleteroll', 'crashroll')
 GEN_ACTIONS = ['CreateList', 'Delete', 'SegmentRoll', 'CompactAtomic', 'Reopen', 'CrashCreate']
 BASE = {'pa': 0, 'pb': 7, 'ka': ['a', 'b'], 'kb': ['c']}
 
@@ -23,10 +24,11 @@ def concretise(rng, hist, tier, counters):
         c['images'] = True    # a delete must be durable: look at the disk right after it
     c['sweep'] = False
     c['sweepSample'] = 6 if tier == 'quick' else 40
-    if 'crashcreate' in acts and 'roll' not in acts and counters['sweep'] < counters['sweep_budget']:
+    has_roll = any(a in ROLLS for a in acts)
+    if 'crashcreate' in acts and not has_roll and counters['sweep'] < counters['sweep_budget']:
         counters['sweep'] += 1
         c['sweep'] = True
-    if 'roll' in acts:
+    if has_roll:
         counters['roll'] += 1
         if counters['roll'] > counters['roll_budget']:
             return None
@@ -83,6 +85,32 @@ def run(ctx):
             dropped_roll += 1
             continue
         cases.append(c)
+    # 3b. a fixed, un-sampled handful of roll-over histories (seed C13-1): the newest segment holds only a tombstone
+    #     (deleteroll) or nothing (crashroll) when the file is opened again, then a create must get a fresh id
+    gr = ctx.tlc_must_pass('SeriesFile', 'SeriesFile.Roll.cfg', timeout=900, dump=True)
+    byk = {}
+    for st in ctx.dump_states(gr):
+        h = st['hist']
+        if len(h) != 4:
+            continue
+        acts = [x['a'] for x in h]
+        for i, a in enumerate(acts):
+            if a in ROLLS and 'create' in acts[i + 1:] and (a == 'crashroll' or 'reopen' in acts[i + 1:]):
+                j = i + 1 + acts[i + 1:].index('create')
+                if a == 'crashroll' or 'reopen' in acts[i + 1:j]:
+                    byk.setdefault(a, []).append(h)
+                break
+    fixed = []
+    for a in ROLLS:
+        hs = sorted(byk.get(a, []), key=lambda h: json.dumps(h, sort_keys=True))
+        if not hs:
+            raise vlib.Inconclusive(f'no roll-over history of kind {a} in SeriesFile.Roll.cfg')
+        step = max(1, len(hs) // 4)
+        for n, h in enumerate(hs[::step][:4]):
+            fixed.append({'pa': 7, 'pb': 7, 'ka': ['a', 'b'], 'kb': [], 'steps': h, 'conc': ctx.rng.randrange(40),
+                          'prefill': {} if n % 2 else {'7': 2}, 'bg': False, 'images': False, 'sweep': False})
+    cases += fixed
+    ctx.extra_cov['rollover_histories_fixed'] = len(fixed)
     # 4. zero-fill sweeps with ids around 0x100 (and 0x10000 in the thorough tier): the torn id bytes of the in-flight id
     #    spell the id of an existing series of partition 7 (ids of partition 7 are the multiples of 8)
     probes = []
@@ -111,7 +139,7 @@ def run(ctx):
         'segment still reads as zeros; acknowledged (flushed+fsynced) entries are stable; index file is replaced atomically by rename',
         'in replay the index compaction runs atomically between operations (exported SeriesPartitionCompactor) or in the background '
         'via CompactThreshold=1; the interleavings of its two critical sections with create/delete are explored by TLC only',
-        'segment roll is provoked by filler series with 60 kB keys; at most one roll per history',
+        'segment roll-over is provoked by filling the active 4 MiB segment with filler series (60 kB keys) up to < 9 free bytes; at most one roll per history',
     ]
 
 
